@@ -102,3 +102,12 @@ impl From<BTreeMap<KeyString, Expr>> for Object {
         Self { inner }
     }
 }
+
+#[cfg(vrl_verif)]
+impl Object {
+    /// verification hook: the member expressions.
+    #[must_use]
+    pub fn verif_inner(&self) -> &BTreeMap<KeyString, Expr> {
+        &self.inner
+    }
+}
